@@ -141,3 +141,14 @@ prop("C12",
      rule="catalogue: unknown field / argument / type / enum value with several equidistant suggestions, input-object literals and variables with several invalid fields, several failing thunks in objects and lists, introspection of types / fields / args / inputFields / enumValues / possibleTypes / directives, multi-rule invalid documents; generated: C04-style executions. Non-trivial = the response carries >= 2 error messages, a suggestion list, or an introspection list; distinct by hash of the case.",
      assumptions=["replica processes are given the same rapid seed and therefore the same requests; only map seeds differ"],
      runs=[dict(test="^TestC12_", quick=dict(checks=600, replicas=3), thorough=dict(checks=4000, shards=8, replicas=4, timeout=3000))])
+
+prop("C02",
+     level_text="differential testing of ValidateDocument against 24 independent rule predicates written from the spec text over the harness's document model: every rule is run alone and all together on valid-by-construction documents, on documents with one or two injected violations from a 78-operator catalogue, and on an exhaustively enumerated family of fragment topologies; oracle = per-rule 'reports iff violated', at least one reported location at the start of a node the rule may blame, IsValid iff no rule violated, Do answers without data iff invalid",
+     note="edition = October 2016 / graphql-js 0.8 (DESIGN §3.2); verdicts the edition leaves open (PossibleFragmentSpreads on non-composite conditions, shape of __typename, same-named definitions with different bodies) are not compared and counted under excluded; generated schemas mention all five built-in scalars",
+     technique="property-based testing (rapid) + bounded exhaustive enumeration, differential oracle (reference rule predicates)",
+     rule="generated: schema x valid document (C01 generator, with custom directives) x 0-2 injections (unknown field/arg/type/directive/fragment, misplaced directives, wrong literal kinds at depth, missing required args/fields, undefined/unused/duplicate variables, stricter positions, non-input variable types, cycles of length 1-3, unused/duplicate fragments, impossible spreads, leaf/selection mismatches, duplicate args/input fields/operation names, anonymous+named, overlapping fields differing in name/args/shape directly and through fragment chains on one or both sides, plus 'legal divergence' operators). Enumerated: query + k fragments on one type, each body = one of 6 selections (x:a, x:b, x:c, q{x:a}, q{x:b}, y:a) followed by any subset of spreads: k=2 complete (13 824 documents; a seed-chosen quarter in quick), k=3 over 4 selections complete in thorough (1 048 576). Non-trivial = some rule is violated, or >= 2 fragments with a duplicated response key; distinct by case hash / text.",
+     assumptions=["reference predicates: harness/ref/validate.go (does not import the library)"],
+     runs=[dict(test="^TestC02_Gen$", quick=dict(checks=1200), thorough=dict(checks=12000, shards=16, timeout=3000)),
+           dict(test="^TestC02_Enum$", quick=dict(env=dict(VERIF_C02_FRAGS=2, VERIF_C02_ALPHA=6, VERIF_C02_PARTS=4)),
+                thorough=dict(env=dict(VERIF_C02_FRAGS=3, VERIF_C02_ALPHA=4, VERIF_C02_PARTS=1), shards=16, timeout=3000)),
+           dict(test="^TestC02_Enum$", thorough_only=True, thorough=dict(env=dict(VERIF_C02_FRAGS=2, VERIF_C02_ALPHA=6, VERIF_C02_PARTS=1), shards=4, timeout=3000))])
